@@ -416,6 +416,10 @@ def glue_contextlib() -> None:
         # List of (is_sync, callback) tuples, from outermost to innermost, where
         # each callback takes parameters following the signature of a __exit__ method
         callbacks: List[Tuple[bool, Callable[..., Any]]] = list(stack._exit_callbacks)
+        # Attach the list up front and each child before running its hooks, so
+        # that if a hook raises, what was gathered so far (including errors
+        # recorded in nested stacks) stays reachable from the context
+        context.children = children
 
         for idx, (is_sync, callback) in enumerate(callbacks):
             tag = ""
@@ -470,11 +474,9 @@ def glue_contextlib() -> None:
                 varname=f"{stackname}[{idx}]",
                 start_line=context.start_line,
             )
+            children.append(child_context)
             _extract.fill_context(child_context)
             child_context.description = f"{tag}{stackname}.{method}({child_context.description or arg or '...'})"
-            children.append(child_context)
-
-        context.children = children
 
 
 @builtin_glue("threading")
